@@ -135,6 +135,7 @@ def evidence(prop, tier, seed, results, pre, known, violations, inconclusive, er
             'samples': samples[:12],
             'exhaustive': False,
             'queries_discharged': {'feasibility': feas, 'verdict': verd}, 'solver_seconds': round(solver_s, 2),
+            'cvc5_cross_check': {k: sum(r.get('stats', {}).get(k, 0) for r in results) for k in ('xchecked', 'xcheck_agree', 'xcheck_disagree', 'xcheck_unknown', 'xcheck_errors')},
             'per_obligation': obl,
             'functions_encoded': {f: hashes.get(f) for f in fe},
             'cuts': pre['info'].get('cuts'),
